@@ -52,6 +52,39 @@ def amplifier_tight(bw_bytes: int) -> Dict[str, Any]:
     return cfg
 
 
+def amplifier_equal_cost() -> Dict[str, Any]:
+    """c - ra = {rb | rc} = [sw] - s : router ra holds two routes of equal prefix and metric to the server's subnet (the
+    first one declared is the one a deterministic simulator uses); the proxy agent pings across and the trajectory
+    records the whole simulation's state digest, so the path taken shows."""
+    H, L = scenarios.host, scenarios.link
+
+    def router(name, ports, routes, dflt=None):
+        d = {"hostname": name, "type": "router", "num_ports": 4, "start_up_duration": 0, "shut_down_duration": 0,
+             "ports": {i + 1: {"ip_address": ip, "subnet_mask": m} for i, (ip, m) in enumerate(ports)},
+             "acl": {1: {"action": "PERMIT"}}, "routes": routes}
+        if dflt:
+            d["default_route"] = {"next_hop_ip_address": dflt}
+        return d
+
+    m30, m24 = "255.255.255.252", "255.255.255.0"
+    nodes = [
+        H("c", "10.0.1.2", "computer", gw="10.0.1.1"), H("s", "10.0.4.10", "server", gw="10.0.4.1"),
+        router("ra", [("10.0.1.1", m24), ("10.0.2.1", m30), ("10.0.3.1", m30)],
+               [{"address": "10.0.4.0", "subnet_mask": m24, "next_hop_ip_address": "10.0.2.2", "metric": 0},
+                {"address": "10.0.4.0", "subnet_mask": m24, "next_hop_ip_address": "10.0.3.2", "metric": 0}]),
+        router("rb", [("10.0.2.2", m30), ("10.0.4.1", m24)], [{"address": "10.0.1.0", "subnet_mask": m24, "next_hop_ip_address": "10.0.2.1", "metric": 0}]),
+        router("rc", [("10.0.3.2", m30), ("10.0.4.2", m24)], [{"address": "10.0.1.0", "subnet_mask": m24, "next_hop_ip_address": "10.0.3.1", "metric": 0}]),
+        {"hostname": "sw", "type": "switch", "num_ports": 4},
+    ]
+    links = [L("c", 1, "ra", 1), L("ra", 2, "rb", 1), L("ra", 3, "rc", 1), L("rb", 2, "sw", 1), L("rc", 2, "sw", 2), L("s", 1, "sw", 3)]
+    cfg = scenarios.base_cfg(nodes, links)
+    amap = {0: {"action": "do-nothing", "options": {}},
+            1: {"action": "node-nmap-ping-scan", "options": {"source_node": "c", "target_ip_address": "10.0.4.10"}},
+            2: {"action": "node-nmap-ping-scan", "options": {"source_node": "s", "target_ip_address": "10.0.1.2"}}}
+    cfg["agents"] = [scenarios.proxy_agent(amap, masking=False)]
+    return cfg
+
+
 def without_optional_blocks() -> Dict[str, Any]:
     """data_manipulation without the optional blocks of a scenario file (nmne_config, thresholds, io_settings): every
     setting they carry is then a default - which must be the default of THIS game, whatever the process did before."""
@@ -120,6 +153,7 @@ def main(tier: str, seed: int) -> int:
         ("amplifier_tight_8frames", {"cfg": amplifier_tight(t8)}, 3),
         ("amplifier_tap_start_nodes", {"cfg": amplifier_tap()}, 60),
         ("data_manipulation_without_optional_blocks", {"cfg": without_optional_blocks()}, 78),
+        ("amplifier_equal_cost_routes", {"cfg": amplifier_equal_cost()}, 3),
     ]
     if tier == "thorough":
         scen += [
@@ -133,7 +167,8 @@ def main(tier: str, seed: int) -> int:
     for label, sc, nact in scen:
         for sd in seeds:
             acts = [rng.randrange(nact) for _ in range(steps)]
-            base = {"scenario": sc, "seed": sd, "episodes": [acts, acts], "hashseed": 0, "profile": {}, "max_len": 200}
+            base = {"scenario": sc, "seed": sd, "episodes": [acts, acts], "hashseed": 0, "profile": {}, "max_len": 200,
+                    "state_digest": label.startswith("amplifier_equal_cost")}
             specs.append(base)
             bi = len(specs) - 1
             for vname, delta in PROFILES:
